@@ -23,6 +23,7 @@ type vAnsSection struct {
 	Mid    string            `json:"mid"`
 	Dir    string            `json:"dir"` // "" = no direction attribute
 	Codecs []vScanOfferCodec `json:"codecs,omitempty"`
+	Extra  []string          `json:"extra,omitempty"` // further attribute lines of the section ("a=...")
 }
 
 // vAnsOfferOpts are the session-level knobs of a synthetic offer.
@@ -72,6 +73,9 @@ func vAnsWriteOffer(secs []vAnsSection, o vAnsOfferOpts) string {
 			b.WriteString("a=setup:" + o.Setup + "\r\n")
 		}
 		b.WriteString("a=mid:" + s.Mid + "\r\n")
+		for _, x := range s.Extra {
+			b.WriteString(x + "\r\n")
+		}
 		b.WriteString("a=ice-ufrag:" + ufrag + "\r\na=ice-pwd:vAnsPasswordvAnsPassword0000\r\n")
 		switch s.Media {
 		case "application":
